@@ -46,7 +46,8 @@ StepF(e, f) ==
     [] OTHER -> FALSE
 \* the recorded fault is what the driver injected into this call; after an earlier failed audit write the writer may
 \* still be latched (the pinned encoder is) or may have recovered -- both are behaviours of the specification
-Step(e) == StepF(e, e.fault) \/ (e.fault = "none" /\ ~auditOK /\ StepF(e, "latched"))
+\* (a latched writer fails the call whatever else the driver injects into it)
+Step(e) == StepF(e, e.fault) \/ (~auditOK /\ StepF(e, "latched"))
 
 TraceOp ==
   /\ l <= Len(Trace) /\ Trace[l].ev = "op"
